@@ -27,7 +27,7 @@ import (
 // is in sync, and no reference to an undefined symbol.
 
 // operand kinds of the sweep
-var shapeKinds = []string{"r8", "r16", "r32", "sreg", "creg", "imm", "immbig", "immneg", "mem", "m8", "m16", "m32", "abs", "label", "undef", "str", "far", "dollar", "fwdequ", "undefg", "mlabel", "mundef", "badmem"}
+var shapeKinds = []string{"r8", "r16", "r32", "sreg", "creg", "imm", "immbig", "immneg", "mem", "m8", "m16", "m32", "abs", "label", "undef", "str", "far", "dollar", "fwdequ", "undefg", "mlabel", "mundef", "badmem", "farundef"}
 
 type ShapeOp struct {
 	Kind string      `json:"k"`
@@ -74,6 +74,9 @@ func shapeOperand(kind string, variant int) sem.Operand {
 		return sem.L("qdef")
 	case "undef":
 		return sem.L(pick([]string{"qundefined", "_nosuch"}))
+	case "farundef":
+		// a far pointer whose offset (or selector) is an undefined symbol
+		return sem.Raw(pick([]string{"2*8:qundefined", "DWORD 8:_nosuch", "8:qundefined", "qundefined:0", "DWORD qundefined:0x1b"}))
 	case "badmem":
 		// register combinations no addressing form exists for: whatever bytes come out cannot designate them
 		return sem.M([]sem.Mem{{Base: "SI", Index: "DI"}, {Base: "BX", Index: "BP"}, {Base: "SI", Index: "DI", Disp: 2, HasDisp: true}, {Base: "AX"}, {Base: "CX", Disp: 2, HasDisp: true},
@@ -213,6 +216,9 @@ func checkC07(c ShapeCase) Verdict {
 	for _, o := range c.Ops {
 		if o.Kind == "undef" || o.Kind == "undefg" {
 			return fail("undef", "it refers to the undefined symbol %s", o.Op.Text)
+		}
+		if o.Kind == "farundef" {
+			return fail("undef", "it refers to an undefined symbol inside the far pointer %s", o.Op.Text)
 		}
 		if o.Kind == "mundef" {
 			return fail("undef", "it refers to the undefined symbol %s (as an address)", o.Op.Mem.Text)
@@ -428,7 +434,7 @@ var c07Implemented = []string{"MOV", "ADD", "SUB", "CMP", "AND", "OR", "XOR", "S
 
 var propC07 = &Prop[ShapeCase]{
 	ID:   "C07",
-	Rule: "every mnemonic of the grammar's Opcode list x operand lists of 0..3 operands of every kind (r8/r16/r32, Sreg, CRn, small/large/negative immediate, typed/untyped/absolute memory, defined label, undefined symbol, symbol declared GLOBAL but never defined, defined label / undefined symbol as the address of a memory operand, register combinations no addressing form exists for, string, far pointer, $), sandwiched between correct statements with a marked label after; oracle: not diagnosed => bytes present, decode completely to the written instruction (or equal the data reference), label after in sync, no undefined symbol, operand count as the mnemonic requires; non-trivial = accepted without diagnostic (the interesting half; diagnosed cases are counted apart); distinct by (mode, statement)",
+	Rule: "every mnemonic of the grammar's Opcode list x operand lists of 0..3 operands of every kind (r8/r16/r32, Sreg, CRn, small/large/negative immediate, typed/untyped/absolute memory, defined label, undefined symbol, symbol declared GLOBAL but never defined, defined label / undefined symbol as the address of a memory operand, register combinations no addressing form exists for, far pointers over an undefined symbol, string, far pointer, $), sandwiched between correct statements with a marked label after; oracle: not diagnosed => bytes present, decode completely to the written instruction (or equal the data reference), label after in sync, no undefined symbol, operand count as the mnemonic requires; non-trivial = accepted without diagnostic (the interesting half; diagnosed cases are counted apart); distinct by (mode, statement)",
 	Gen: func(t *rapid.T) ShapeCase {
 		ops := GrammarOpcodes()
 		var mn string
@@ -472,6 +478,9 @@ var propC07 = &Prop[ShapeCase]{
 							c3.Ops[1].Op = shapeOperand(ks[1], vv+3) // not the same register twice
 							yield(c3)
 						}
+					}
+					for vv := 0; vv < 5; vv++ {
+						yield(mkShape(mode, mn, []string{"farundef"}, vv))
 					}
 					// memory operands of every questionable kind, in every variant, in the usual operand shapes
 					for _, mk := range []string{"badmem", "mundef", "mlabel", "mem"} {
